@@ -8,7 +8,8 @@ WT=$(mktemp -d /tmp/wt-XXXXXX); OUT=$(mktemp -d /tmp/out-XXXXXX)
 git -C /repo worktree add --detach -f "$WT" HEAD >/dev/null 2>&1 || { echo "worktree failed"; exit 2; }
 if ! git -C "$WT" apply "$PATCH"; then echo "patch does not apply"; git -C /repo worktree remove --force "$WT"; exit 2; fi
 VERIF_REPO="$WT" VERIF_OUT="$OUT" /verif/check "$ID" "$TIER" > "$OUT/log" 2>&1; rc=$?
-grep -E "^(VIOLATION|KNOWN-FINDING|INCONCLUSIVE|C[0-9]+ )|violation:" "$OUT/log" | cut -c1-300 | head -${SELFTEST_LINES:-12}
+grep -E "^(INCONCLUSIVE|BUILD-FAILED|C[0-9]+ )|violation:" "$OUT/log" | cut -c1-300 | head -${SELFTEST_LINES:-12}
+echo "known_findings_printed=$(grep -c '^KNOWN-FINDING' "$OUT/log") violation_lines=$(grep -c '^VIOLATION' "$OUT/log")"
 echo "selftest $ID $(basename $(dirname "$PATCH"))/$(basename "$PATCH") exit=$rc"
 B=/verif/.build-$(echo "$WT" | md5sum | cut -c1-8); rm -rf "$B"
 git -C /repo worktree remove --force "$WT"; rm -rf "$OUT"
